@@ -8,6 +8,7 @@ mod m_sliceindex;
 mod m_strindex;
 mod m_parser;
 mod m_cmp;
+mod m_sliceiter;
 
 use common::*;
 use rand::{rngs::SmallRng, SeedableRng};
@@ -21,6 +22,7 @@ fn replay_line(s: &mut Summary, v: &V) {
         "StrIndex" => m_strindex::replay(s, v),
         "Parser" => m_parser::replay(s, v),
         "Cmp" => m_cmp::replay(s, v),
+        "SliceIter" => m_sliceiter::replay(s, v),
         m => panic!("kh: unknown module {m}"),
     }
 }
@@ -69,6 +71,7 @@ fn main() {
                 "StrIndex" => m_strindex::record(&mut rng, n, &mut out),
                 "Parser" => m_parser::record(&mut rng, n, &mut out),
                 "Cmp" => m_cmp::record(&mut rng, n, &mut out),
+                "SliceIter" => m_sliceiter::record(&mut rng, n, &mut out),
                 m => panic!("kh: unknown module {m}"),
             }
             out.flush().unwrap();
